@@ -13,6 +13,13 @@ C08 micro-step model of the in-flight bookkeeping of one `Channel`
 * one `Step` = one critical section (the windows between the `verifPoint` hooks).
 * `fixed = false` is `removeFromInFlightPQ` as on the unchanged tree (`if msg.index == -1`),
   `fixed = true` is fixes/F7_stale_index.patch (`index` in range and `pq[index] == msg`).
+* three more shape parameters are carried in the state (never changed by a step; each chosen per tree by a tie):
+  `scanAtomic` (F16), `pushAtomic` (F48: `pushInFlightMessage` inserts into the map AND pushes the heap entry in
+  one critical section; the goroutine still passes the hook `chan.*.afterMapPush`, where nothing is left to do),
+  `ansLock` (fixes/F27: REQ and TOUCH hold the channel's read lock from before `popInFlightMessage` until they
+  return, `Channel.Empty` holds the write lock over its three sections).
+* one live `*Message` per message id: `put o` (a NEW message object with id `o`) is disabled while any container
+  or any parked operation still refers to `o` (ids are unique, C12; the harness's `free(o)` is the same test).
 -/
 namespace Nsq.Model.InFlight
 
@@ -169,6 +176,8 @@ inductive Cont where
   | emptyAfterInitPQ
   | deferAfterMapPush (o : Nat)
   | dscanAfterPQPop (o : Nat)
+  /-- `StartDeferredTimeout` called by `RequeueMessage` (still inside REQ: with `ansLock` the read lock is held) -/
+  | reqDeferAfterMapPush (o : Nat)
 deriving Repr, DecidableEq
 
 structure St where
@@ -186,6 +195,32 @@ structure St where
   takes the message off the heap AND out of the in-flight map in one critical section
   (fixes/scan_pop_atomic.patch); `false` = the older shape with a separate `popInFlightMessage` -/
   scanAtomic : Bool := false
+  /-- model parameter (tie `push_shape_known`): `pushInFlightMessage` inserts into the in-flight map and pushes the
+  heap entry in ONE critical section (fix F48); `false` = the older shape with a separate `addToInFlightPQ` -/
+  pushAtomic : Bool := false
+  /-- model parameter (tie `answers_channel_lock_shape`): REQ / TOUCH hold `c.RLock` while the message is in their
+  hands, so `Channel.Empty` (`c.Lock`) and an answer in progress exclude each other (fixes/F27) -/
+  ansLock : Bool := false
+
+/-- the object a parked continuation refers to -/
+def contObj : Cont → List Nat
+  | .finAfterPop o | .reqAfterPop o _ | .reqAfterRemove o _ | .touchAfterPop o | .touchAfterRemove o
+  | .touchAfterMapPush o | .inflightAfterMapPush o | .scanAfterPQPop o | .deferAfterMapPush o | .dscanAfterPQPop o
+  | .reqDeferAfterMapPush o => [o]
+  | .emptyAfterInflightReset | .emptyAfterInitPQ => []
+
+/-- every object some parked operation refers to -/
+def contObjs (cs : List Cont) : List Nat := (cs.map contObj).flatten
+
+/-- a REQ / TOUCH in progress (between its first and its last critical section): with `ansLock` it holds `c.RLock` -/
+def Cont.isAnswer : Cont → Bool
+  | .reqAfterPop _ _ | .reqAfterRemove _ _ | .reqDeferAfterMapPush _
+  | .touchAfterPop _ | .touchAfterRemove _ | .touchAfterMapPush _ => true
+  | _ => false
+
+/-- `Channel.Empty` in progress: it holds `c.Lock` -/
+def emptyRunning (cs : List Cont) : Bool :=
+  decide (Cont.emptyAfterInflightReset ∈ cs) || decide (Cont.emptyAfterInitPQ ∈ cs)
 
 inductive Step where
   | finPop (c : Int) (o : Nat)            -- popInFlightMessage in FinishMessage
@@ -242,7 +277,8 @@ def step (fixed : Bool) (s : St) : Step → Res
       okH s (removeFromPQ fixed s.h o) (fun h => { s with h := h, conts := dropCont s.conts (Cont.finAfterPop o) })
     else Res.disabled
   | .reqPop c o d =>
-    if o ∈ s.map ∧ (s.h.objs o).client = c then
+    if s.ansLock && emptyRunning s.conts then Res.disabled      -- c.RLock() waits for Empty's write lock
+    else if o ∈ s.map ∧ (s.h.objs o).client = c then
       Res.ok { s with map := s.map.erase o, conts := Cont.reqAfterPop o d :: s.conts }
     else Res.ok s
   | .reqRemove o =>
@@ -260,10 +296,11 @@ def step (fixed : Bool) (s : St) : Step → Res
         Res.ok { s with conts := dropCont s.conts (Cont.reqAfterRemove o d) }  -- "ID already deferred"
       else
         Res.ok { s with dmap := o :: s.dmap,
-                        conts := Cont.deferAfterMapPush o :: dropCont s.conts (Cont.reqAfterRemove o d) }
+                        conts := Cont.reqDeferAfterMapPush o :: dropCont s.conts (Cont.reqAfterRemove o d) }
     | _ => Res.disabled
   | .touchPop c o =>
-    if o ∈ s.map ∧ (s.h.objs o).client = c then
+    if s.ansLock && emptyRunning s.conts then Res.disabled
+    else if o ∈ s.map ∧ (s.h.objs o).client = c then
       Res.ok { s with map := s.map.erase o, conts := Cont.touchAfterPop o :: s.conts }
     else Res.ok s
   | .touchRemove o =>
@@ -276,25 +313,35 @@ def step (fixed : Bool) (s : St) : Step → Res
       if o ∈ s.map then        -- "ID already in flight": TouchMessage returns the error (pri already written)
         Res.ok { s with h := { s.h with objs := setPri s.h.objs o p },
                         conts := dropCont s.conts (Cont.touchAfterRemove o) }
+      else if s.pushAtomic then    -- F48: map insert and heap push in the same critical section
+        okH s (push { s.h with objs := setPri s.h.objs o p } o) (fun h =>
+          { s with h := h, map := o :: s.map,
+                   conts := Cont.touchAfterMapPush o :: dropCont s.conts (Cont.touchAfterRemove o) })
       else
         Res.ok { s with h := { s.h with objs := setPri s.h.objs o p }, map := o :: s.map,
                         conts := Cont.touchAfterMapPush o :: dropCont s.conts (Cont.touchAfterRemove o) }
     else Res.disabled
   | .touchPQPush o =>
     if Cont.touchAfterMapPush o ∈ s.conts then
-      okH s (push s.h o) (fun h => { s with h := h, conts := dropCont s.conts (Cont.touchAfterMapPush o) })
+      if s.pushAtomic then Res.ok { s with conts := dropCont s.conts (Cont.touchAfterMapPush o) }   -- nothing left to do
+      else okH s (push s.h o) (fun h => { s with h := h, conts := dropCont s.conts (Cont.touchAfterMapPush o) })
     else Res.disabled
   | .startMapPush c o p =>
     if o ∈ s.queued then
       if o ∈ s.map then        -- "ID already in flight" (fields are written before the check)
         Res.ok { s with h := { s.h with objs := setDeliver s.h.objs o c p }, queued := s.queued.erase o }
+      else if s.pushAtomic then
+        okH s (push { s.h with objs := setDeliver s.h.objs o c p } o) (fun h =>
+          { s with h := h, queued := s.queued.erase o, map := o :: s.map,
+                   conts := Cont.inflightAfterMapPush o :: s.conts })
       else
         Res.ok { s with h := { s.h with objs := setDeliver s.h.objs o c p }, queued := s.queued.erase o,
                         map := o :: s.map, conts := Cont.inflightAfterMapPush o :: s.conts }
     else Res.disabled
   | .startPQPush o =>
     if Cont.inflightAfterMapPush o ∈ s.conts then
-      okH s (push s.h o) (fun h => { s with h := h, conts := dropCont s.conts (Cont.inflightAfterMapPush o) })
+      if s.pushAtomic then Res.ok { s with conts := dropCont s.conts (Cont.inflightAfterMapPush o) }
+      else okH s (push s.h o) (fun h => { s with h := h, conts := dropCont s.conts (Cont.inflightAfterMapPush o) })
     else Res.disabled
   | .scanPeek t =>
     match peekAndShift s.h t with
@@ -319,6 +366,7 @@ def step (fixed : Bool) (s : St) : Step → Res
     else Res.disabled
   | .emptyResetInflight =>
     if Cont.emptyAfterInflightReset ∈ s.conts ∨ Cont.emptyAfterInitPQ ∈ s.conts then Res.disabled  -- c.Lock()
+    else if s.ansLock && s.conts.any Cont.isAnswer then Res.disabled   -- c.Lock() waits for the answers' read locks
     else Res.ok { s with h := { s.h with pq := [] }, map := [], conts := Cont.emptyAfterInflightReset :: s.conts }
   | .emptyResetDeferred =>
     if Cont.emptyAfterInflightReset ∈ s.conts then
@@ -338,6 +386,8 @@ def step (fixed : Bool) (s : St) : Step → Res
   | .deferPQPush o p =>
     if Cont.deferAfterMapPush o ∈ s.conts then
       Res.ok { s with dpq := (p, o) :: s.dpq, conts := dropCont s.conts (Cont.deferAfterMapPush o) }
+    else if Cont.reqDeferAfterMapPush o ∈ s.conts then
+      Res.ok { s with dpq := (p, o) :: s.dpq, conts := dropCont s.conts (Cont.reqDeferAfterMapPush o) }
     else Res.disabled
   | .dscanPeek t =>
     match dmin s.dpq with
@@ -356,7 +406,8 @@ def step (fixed : Bool) (s : St) : Step → Res
     if o ∈ s.queued ∧ o ∉ s.h.pq then Res.ok { s with h := { s.h with objs := freshObj s.h.objs o } }
     else Res.disabled
   | .put o =>
-    if o ∈ s.queued ∨ o ∈ s.map ∨ o ∈ s.dmap ∨ o ∈ s.h.pq ∨ o ∈ s.dpq.map (·.2) then Res.disabled   -- ids are unique (C12)
+    if o ∈ s.queued ∨ o ∈ s.map ∨ o ∈ s.dmap ∨ o ∈ s.h.pq ∨ o ∈ s.dpq.map (·.2) ∨ o ∈ contObjs s.conts then
+      Res.disabled   -- ids are unique (C12): no new message carries an id something still refers to
     else Res.ok { s with h := { s.h with objs := freshObj s.h.objs o }, queued := o :: s.queued }
 
 /-- run a schedule; stops at the first panic or disabled step -/
